@@ -50,6 +50,7 @@ static Case gen_case() {
   c.cfg.restart = one_of<int>({1, 2, 3, 4, 16, 16});
   KeyUniverse u = gen_universe();
   c.entries = gen_table(c.cfg.eff_block_size(), 6 + current_size(), /*allow_huge*/ false, &u);
+  if (chance(3)) gen_big_values_in_big_blocks(c.cfg, c.entries);
   KVs kv = expand_entries(c.entries);
   int ni = weighted({66, 30, 4}) + 1;
   for (int i = 0; i < ni; i++) c.iters.push_back(gen_iter_spec(kv, u));
